@@ -201,6 +201,8 @@ def run(ctx):
     for r in (999999, 10 ** 6, 1234567, 1234568, 10 ** 17, 2 ** 64):       # maximum rewards with many digits
         for fd in (False, True):
             cli.append((3, 2, 2, r, 10, 10, 10, 30, fd))
+    for sd in (2 ** 53, 2 ** 53 + 1, 2 ** 64 - 1, 2 ** 64, 10 ** 30 + 1):       # seeds a double cannot hold
+        cli.append((sd, 1, 1, 6, 10, 10, 10, 30, False))
     cli = sorted(set(cli))
     manual = []
     mbase = (1, 1, 2, 10, 10, 10, False)
